@@ -26,7 +26,7 @@ CONSTANTS Keys,        \* keys that are written (set of byte strings)
           ProbeKeys,   \* sequence of keys looked up in every observation
           IterTable    \* sequence of <<prefix, start, mode>> iterated in every observation
 
-VARIABLES store,  \* [Keys -> Vals \cup {NONE}]
+VARIABLES store,  \* [Keys -> Vals \cup BVals \cup {NONE}]
           batch,  \* sequence of batch operations
           bw,     \* the batch has been written and not reset yet
           snaps,  \* [1..MaxSnaps -> [live : BOOLEAN, view : view]]
@@ -54,9 +54,9 @@ AbsOf(s) == [store |-> ViewJ(SortedKeys, s.store), batch |-> OpsJ(s.batch), bw |
 Abs == AbsOf(Cur)
 
 TypeOK ==
-  /\ store \in [Keys -> Vals \cup {NONE}]
+  /\ store \in [Keys -> Vals \cup BVals \cup {NONE}]
   /\ Len(batch) <= MaxBatch /\ bw \in BOOLEAN
-  /\ \A i \in 1..MaxSnaps : snaps[i].live \in BOOLEAN /\ snaps[i].view \in [Keys -> Vals \cup {NONE}]
+  /\ \A i \in 1..MaxSnaps : snaps[i].live \in BOOLEAN /\ snaps[i].view \in [Keys -> Vals \cup BVals \cup {NONE}]
 
 Init ==
   /\ \E s \in InitSet : store = s.store /\ batch = s.batch /\ bw = s.bw /\ snaps = s.snaps
